@@ -136,6 +136,8 @@ pub fn test_normalize(s: &str) -> String {
             '\u{ff1c}' => out.push('<'),
             '\u{ff06}' => out.push('&'),
             '\u{fb01}' => out.push_str("fi"),
+            '\u{ff1e}' => out.push('>'),
+            '\u{226f}' => out.push_str(">\u{338}"),
             c => out.push(c),
         }
     }
@@ -144,7 +146,7 @@ pub fn test_normalize(s: &str) -> String {
 
 impl xot::output::Normalizer for TestNormalizer {
     fn normalize<'a>(&self, content: std::borrow::Cow<'a, str>) -> std::borrow::Cow<'a, str> {
-        if content.chars().any(|c| matches!(c, '\u{226e}' | '\u{ff1c}' | '\u{ff06}' | '\u{fb01}')) {
+        if content.chars().any(|c| matches!(c, '\u{226e}' | '\u{ff1c}' | '\u{ff06}' | '\u{fb01}' | '\u{ff1e}' | '\u{226f}')) {
             std::borrow::Cow::Owned(test_normalize(&content))
         } else {
             content
